@@ -194,8 +194,19 @@ def run_scenario(router, table, reqs, rng):
     for pair in table:
         router.register(app_bytes(pair[0]), cmd_bytes(pair[1]), handler_for(tuple(pair)))
     sent, problems = [], []
+    prev = {}
     for k, (pair, outcome) in enumerate(reqs, 1):
         req = make_request(pair[0], pair[1], k, rng)
+        if k > 1 and rng.random() < 0.3 and prev.get(tuple(pair)) is not None:
+            # a retransmission: the same request again (same identifiers and Session-Id, T bit set) is a request like any other
+            old = prev[tuple(pair)]
+            req = make_request(pair[0], pair[1], k, rng)
+            req.header.hop_by_hop, req.header.end_to_end = old.header.hop_by_hop, old.header.end_to_end
+            req.session_id_avp.data = old.session_id_avp.data
+            req.origin_host_avp.data = old.origin_host_avp.data
+            req.refresh()
+            req.header.flags = bytes([req.header.flags[0] | 0x10])
+        prev[tuple(pair)] = req
         state["outcome"], state["answer"] = outcome, None
         before = len(ran)
         try:
@@ -203,6 +214,10 @@ def run_scenario(router, table, reqs, rng):
                 queued, exc = router.dispatch(req)
         except BaseException as e:
             problems.append(f"request {k} ({outcome}): callback_route raised {type(e).__name__}: {e}")
+            if type(e).__name__ == "Hang":
+                router.drain()
+                sent.append("?")
+                break                   # the rest of this scenario would wait on the same call
             router.drain()
             sent.append("?")
             continue
@@ -293,8 +308,8 @@ def run(rep):
             rep.violation(f"send queue received {obs['sent']}, specification {list(v['exp']['sent'])} for outcomes {[r[1] for r in reqs]}", replay)
         for p in problems:
             rep.violation(p, replay)
-        if len(rep.violations) >= 40:
-            break
+        if len(rep.violations) >= 40 or sum(1 for x in rep.violations if "Hang" in str(x)) >= 2:
+            break                       # (a call that never returns costs its whole time limit: two of them are enough)
     rep.notes["scenarios"] = len(vecs)
     # requests in flight together (each in its own thread), scheduled line by line
     from engine import vsched
